@@ -34,7 +34,9 @@ def from_hyperedge_dict(d, create_using=None):
     to_hyperedge_list
     """
     H = empty_hypergraph(create_using)
-    H.add_edges_from((members, uid) for uid, members in d.items())
+    # the dict format is unambiguous; (members, uid) pairs are not when an edge ID
+    # is itself a tuple (a directed network would read them as (tail, head))
+    H.add_edges_from(dict(d))
     return H
 
 
